@@ -41,6 +41,23 @@ def handleGroup (s : DState) (toks : List String) : Option Out :=
     | none => none
   | _ => none
 
+/-- FNV-1a over the ASCII bytes of a rendering -/
+def fnv (h : UInt64) (cs : List Char) : UInt64 :=
+  cs.foldl (fun h c => (h ^^^ UInt64.ofNat c.toNat) * 0x100000001b3) h
+
+/-- `rtrange lo hi`: number of ids in `[lo, hi)` whose rendering parses back to the id (and whose
+big-endian bytes round-trip) and the digest of all renderings -/
+def rtRange (lo hi : Nat) : String :=
+  let step := fun (acc : Nat × UInt64) (n : Nat) =>
+    let r := TermId.render n
+    let good := TermId.parse r == some n &&
+      (match TermId.toBe n with
+        | [a, b, c, d] => TermId.fromBe a b c d == n
+        | _ => false)
+    ((if good then acc.1 + 1 else acc.1), fnv acc.2 r)
+  let res := (List.range' lo (hi - lo)).foldl step (0, 0xcbf29ce484222325)
+  s!"rt {res.1} {res.2.toNat}"
+
 def handleTermId (s : DState) (toks : List String) : Option Out :=
   match toks with
   | ["render", n] =>
@@ -62,6 +79,10 @@ def handleTermId (s : DState) (toks : List String) : Option Out :=
     match a.toNat?, b.toNat?, c.toNat?, d.toNat? with
     | some a, some b, some c, some d => some (s, [toString (TermId.fromBe a b c d)])
     | _, _, _, _ => none
+  | ["rtrange", lo, hi] =>
+    match lo.toNat?, hi.toNat? with
+    | some lo, some hi => some (s, [rtRange lo hi])
+    | _, _ => none
   | ["roundtrip", n] =>   -- parse(render n), from_be(to_be n)
     match n.toNat? with
     | some n =>
